@@ -196,6 +196,8 @@ def _is_req_ack(x):
 
 
 def is_ack_minus_one(f, e):
+    if is_modsum(e, [_is_req_ack], -1):
+        return True
     # ack.checked_sub(1).unwrap_or(0xFFFFFFFF)
     e1 = peel(e, unwraps=False)
     if is_call(e1, r'Option::<[^>]*>::unwrap_or$') and const_val(e1[2][1]) == 0xFFFFFFFF:
@@ -998,3 +1000,97 @@ def rpc_verifier_never_awaited(F):
             looks.append(rp.loc(b))
     ok = sets_end and not looks
     return ok, 'VerifLen arm assigns End: %s; branches on the verifier length in that arm: %s' % (sets_end, looks or 'none'), rp.loc(head[0])
+
+
+# ---------------------------------------------------------------------------------------------------------
+# modular linear forms: "x + y (mod 2^w)" however it is spelled
+def modsum(e, w=32, _depth=0):
+    """Canonical form of an integer expression modulo 2^w: (sorted tuple of opaque term expressions, constant mod 2^w),
+    or None if e is not an (unconditionally) modular sum.  Understands wrapping_add/sub, checked overflow-trapping
+    adds (equal mod 2^w whenever they return), widening to a larger unsigned type and cutting back (mask / cast),
+    checked_add(x, 1).unwrap_or(0), checked_sub(x, 1).unwrap_or(MAX) and the guarded `if x > 0 { x - 1 } else { MAX }`."""
+    M = (1 << w) - 1
+    if _depth > 12:
+        return None
+    e0 = e
+    while isinstance(e0, tuple) and e0[0] in ('ref', 'deref'):
+        e0 = e0[1]
+    if not isinstance(e0, tuple):
+        return None
+    cv = const_val(e0) if e0[0] in ('const',) else None
+    if cv is not None:
+        return ((), cv & M)
+    k = e0[0]
+    if k == 'cast':
+        return modsum(e0[2], w, _depth + 1)           # zero-extension / truncation to >= w bits is transparent mod 2^w
+    if k == 'field' and e0[2] == '0' and isinstance(e0[1], tuple) and e0[1][0] == 'bin' and e0[1][1].endswith('WithOverflow'):
+        return modsum(('bin', e0[1][1].replace('WithOverflow', ''), e0[1][2], e0[1][3]), w, _depth + 1)
+    if k == 'bin':
+        op = e0[1]
+        if op in ('Add', 'AddUnchecked', 'Sub', 'SubUnchecked'):
+            a, b = modsum(e0[2], w, _depth + 1), modsum(e0[3], w, _depth + 1)
+            if a is None or b is None:
+                return None
+            if op.startswith('Add'):
+                return (tuple(sorted(a[0] + b[0], key=repr)), (a[1] + b[1]) & M)
+            if b[0]:
+                return None
+            return (a[0], (a[1] - b[1]) & M)
+        if op == 'BitAnd' and const_val(e0[3]) is not None and const_val(e0[3]) & M == M:
+            return modsum(e0[2], w, _depth + 1)
+        if op == 'Rem' and const_val(e0[3]) == (1 << w):
+            return modsum(e0[2], w, _depth + 1)
+        return ((e0,), 0)
+    if k == 'call':
+        n = e0[1]
+        if re.search(r'::wrapping_add$', n):
+            a, b = modsum(e0[2][0], w, _depth + 1), modsum(e0[2][1], w, _depth + 1)
+            if a is None or b is None:
+                return None
+            return (tuple(sorted(a[0] + b[0], key=repr)), (a[1] + b[1]) & M)
+        if re.search(r'::wrapping_sub$', n):
+            a, b = modsum(e0[2][0], w, _depth + 1), modsum(e0[2][1], w, _depth + 1)
+            if a is None or b is None or b[0]:
+                return None
+            return (a[0], (a[1] - b[1]) & M)
+        if re.search(r'Option::<[^>]*>::unwrap_or$', n):
+            inner = e0[2][0]
+            while isinstance(inner, tuple) and inner[0] in ('ref', 'deref'):
+                inner = inner[1]
+            d = const_val(e0[2][1])
+            if is_call(inner, r'::checked_add$') and const_val(inner[2][1]) == 1 and d == 0:
+                a = modsum(inner[2][0], w, _depth + 1)
+                return None if a is None else (a[0], (a[1] + 1) & M)
+            if is_call(inner, r'::checked_sub$') and const_val(inner[2][1]) == 1 and d == M:
+                a = modsum(inner[2][0], w, _depth + 1)
+                return None if a is None else (a[0], (a[1] - 1) & M)
+            return ((e0,), 0)
+        if n in TRANSPARENT or re.search(r'convert::(From|Into)(<[^>]*>)?>?::(from|into)$|TryInto::try_into$|::unwrap$|::expect$', n):
+            return modsum(e0[2][0], w, _depth + 1) if e0[2] else None
+        return ((e0,), 0)
+    if k == 'phi':
+        # if x > 0 { x - 1 } else { MAX }
+        al = [a for a in e0[1]]
+        if len(al) == 2:
+            cs = [a for a in al if const_val(a) == M]
+            rest = [a for a in al if a not in cs]
+            if len(cs) == 1 and len(rest) == 1:
+                r_ = modsum(rest[0], w, _depth + 1)
+                if r_ is not None and r_[1] == M and len(r_[0]) == 1:
+                    return r_
+        return None
+    return ((e0,), 0)
+
+
+def is_modsum(e, term_preds, const, w=32):
+    """e == sum of terms (one per predicate, in any order) + const (mod 2^w)"""
+    m = modsum(e, w)
+    if m is None or m[1] != const % (1 << w) or len(m[0]) != len(term_preds):
+        return False
+    left = list(m[0])
+    for pr in term_preds:
+        hit = [t for t in left if _try(lambda a, _b: pr(a), t, None)]
+        if not hit:
+            return False
+        left.remove(hit[0])
+    return True
